@@ -45,6 +45,8 @@ func c08Programs() []c08Prog {
 		// groups keyed on an order-preserving function of the pool key: a group can span
 		// objects that different scan workers read (indices 34..36, used by the controlled part)
 		m(`summarize count() by k:=floor(k)`), m(`summarize c:=count(), s:=sum(a) by k:=round(k)`), m(`summarize count() by k:=ceil(k) | sort k`),
+		// a sort on a field other than the pool key is lifted into the scan legs and merged back (index 37)
+		{`sort x`, "sort:x"},
 	}
 }
 
@@ -68,6 +70,12 @@ func c08Pools() []c08Pool {
 	d1, d2, d3 := `{k:1.1,a:1,s:"x"} {k:1.2,a:2,s:"y"}`, `{k:1.6,a:1,s:"x"} {k:2.4,a:3,s:"y"}`, `{k:2.6,a:2,s:"x"} {k:3.1,a:1,s:"z"} {k:3.2,a:1,s:"z"}`
 	for _, ord := range []string{"asc", "desc"} {
 		out = append(out, c08Pool{"disjoint-objects-sharing-buckets " + ord, []lk.Op{{Kind: "createpool", Pool: "p", Key: "k:" + ord}, ld("p", "main", d1), ld("p", "main", d2), ld("p", "main", d3)}})
+	}
+	// disjoint objects whose values of another field interleave across objects, so that a merge of
+	// the legs' sorted outputs has to alternate between three legs
+	x1, x2, x3 := `{k:1,x:0,a:1} {k:2,x:10,a:1}`, `{k:3,x:20,a:1} {k:4,x:30,a:1}`, `{k:5,x:5,a:1} {k:6,x:15,a:1}`
+	for _, ord := range []string{"asc", "desc"} {
+		out = append(out, c08Pool{"disjoint-objects-interleaving-field " + ord, []lk.Op{{Kind: "createpool", Pool: "p", Key: "k:" + ord}, ld("p", "main", x1), ld("p", "main", x2), ld("p", "main", x3)}})
 	}
 	return out
 }
@@ -187,6 +195,13 @@ func TestC08(t *testing.T) {
 			}
 		}
 	}
+	// three scan workers over three disjoint objects: programs whose sort is lifted into the
+	// legs and merged back (merge of three legs whose outputs interleave)
+	for _, pi := range []int{37, 11, 12} {
+		for _, pl := range []int{6, 7} {
+			scs = append(scs, sc{pl, pi, 3})
+		}
+	}
 	tmp, err := os.MkdirTemp("", "verif-c08-")
 	if err != nil {
 		t.Fatal(err)
@@ -239,7 +254,7 @@ func TestC08(t *testing.T) {
 	run.Set("scheduled_transitions", transitions)
 	run.Set("evaluations", cases+execs)
 	run.Set("exhaustive", exhaustive)
-	run.Set("rule", "free-running: 37 programs after 'from p' (order-preserving operators, sorts, aggregations incl. those decomposed into partials, fork, head/tail/uniq under count) x 6 pools (many one-value objects / three overlapping objects / three disjoint objects whose float keys share floor, round and ceil buckets across object boundaries; ascending / descending, with null, missing and mixed-type keys, duplicate keys across objects) x parallelism {2,3,8,16} (thorough 3 repeats) compared with parallelism 1: same multiset, and the same key sequence where the program defines an order. Controlled schedules: for 6 representative programs x the overlapping pools and 3 grouping programs x the disjoint pools, the parallel query runs in a synctest bubble with every storage read of every scan worker as a gate; all schedules within a bound of deviations from first-in-canonical-order are executed and each compared with parallelism 1")
+	run.Set("rule", "free-running: 38 programs after 'from p' (order-preserving operators, sorts, aggregations incl. those decomposed into partials, fork, head/tail/uniq under count) x 8 pools (many one-value objects / three overlapping objects / three disjoint objects whose float keys share floor, round and ceil buckets across object boundaries / three disjoint objects whose values of another field interleave; ascending / descending, with null, missing and mixed-type keys, duplicate keys across objects) x parallelism {2,3,8,16} (thorough 3 repeats) compared with parallelism 1: same multiset, and the same key sequence where the program defines an order. Controlled schedules: for 6 representative programs x the overlapping pools 3 grouping programs x the disjoint pools, and 3 sorting programs x the interleaving-field pools with three scan workers, the parallel query runs in a synctest bubble with every storage read of every scan worker as a gate; all schedules within a bound of deviations from first-in-canonical-order are executed and each compared with parallelism 1")
 	run.Assume("goroutine schedules are controlled at storage reads only (which worker obtains which object and the arrival order at combine/merge follow from them); preemption inside the runtime's channel operations is exercised by the free-running runs, not enumerated")
 }
 
